@@ -335,6 +335,15 @@ func ExecConformance(c *Check, prop string, bins map[string]string, vs []Variant
 	}
 	boomPanics = m.HTTP
 	rogueOn = m.Rogue
+	c.SetDefault("rule", "a case = (operation, outcome plan, directive/interceptor plan, schedule, transport) executed on one generated configuration and validated by TLC as one trace; operations are generated at random from the probe schema (depth 1-3, fragments, type conditions, @skip/@include, aliases, operation-side directives"+
+		", @defer where the property is about it) plus the hand-written corpora; plans are derived from the positions the fault-free baseline run visited. distinct_nontrivial counts distinct classes = (operation kind, multiset of outcome kinds in the plan, schedule kind) of cases with a non-empty plan; fault-free cases and repeats of a class are not counted")
+	c.SetDefault("trusted_base", []string{"TLC and the Json community module", "the universal resolver (values built by reflection from the plan)", "the JSON -> tagged-tree projection of responses", "error messages are abstracted to classes (err / panic / dir / int / nonnull / ctx)"})
+	c.SetDefault("explanation", "cases_* count executed and TLC-validated cases by dimension; every case runs on every generated configuration listed in configurations")
+	cfgIDs := []string{}
+	for _, v := range vs {
+		cfgIDs = append(cfgIDs, fmt.Sprintf("%s(follow_schema=%v,func_syntax=%v,worker_limit=%d,custom_roots=%v,opts=%v)", v.ID(), v.FollowSchema, v.FuncSyntax, v.WorkerLimit, v.CustomRoots, v.Opts))
+	}
+	c.SetDefault("configurations", cfgIDs)
 	if m.PlansPer == 0 {
 		m.PlansPer = 4
 	}
@@ -432,7 +441,7 @@ func ExecConformance(c *Check, prop string, bins map[string]string, vs []Variant
 	// 3. run on every variant, validate, compare across variants
 	type key struct{ id string }
 	respOf := map[string]map[string]string{} // scenario id -> variant -> canonical response
-	for _, v := range vs {
+	for vi, v := range vs {
 		var scs []*Scenario
 		for _, t := range templ {
 			cp := *t
@@ -493,6 +502,7 @@ func ExecConformance(c *Check, prop string, bins map[string]string, vs []Variant
 			if len(s.Plan)+len(s.DirPlan) > 0 {
 				c.Class(classOf(s))
 			}
+			countScenario(c, s)
 			if respOf[s.ID] == nil {
 				respOf[s.ID] = map[string]string{}
 			}
@@ -513,11 +523,19 @@ func ExecConformance(c *Check, prop string, bins map[string]string, vs []Variant
 		}
 		judgeRejections(c, prop, v.ID(), m, vSchemaRaw, rej)
 		if len(ok) > 0 {
-			s := ok[len(ok)/2]
-			for _, cand := range ok[len(ok)/2:] {
+			start := (len(ok) / 2) + 7*vi
+			if start >= len(ok) {
+				start = len(ok) / 2
+			}
+			s := ok[start]
+			skip := vi // a different case per configuration
+			for _, cand := range ok[start:] {
 				if len(cand.Plan) > 0 && len(cand.Query) < 400 {
 					s = cand
-					break
+					if skip == 0 {
+						break
+					}
+					skip--
 				}
 			}
 			c.Sample(map[string]any{"variant": v.ID(), "query": s.Query, "plan": s.Plan, "dirplan": s.DirPlan, "sched": s.Sched, "events": len(s.Result.Events)})
@@ -893,4 +911,52 @@ func VarShareCorpus(prefix string, reps int) []*Scenario {
 		out = append(out, sc)
 	}
 	return out
+}
+
+// countScenario records the dimensions of one executed, validated case in the evidence.
+func countScenario(c *Check, s *Scenario) {
+	mode := s.Mode
+	if mode == "" {
+		mode = "executor"
+	}
+	c.Inc("cases_transport_"+strings.ReplaceAll(mode, ":", "_"), 1)
+	sk := s.Sched
+	if strings.HasPrefix(sk, "rand") {
+		sk = "rand"
+	}
+	if sk == "" {
+		sk = "unscheduled"
+	}
+	c.Inc("cases_schedule_"+sk, 1)
+	if s.Op != nil {
+		c.Inc("cases_kind_"+s.Op.Kind, 1)
+	}
+	if strings.Contains(s.Query, "@defer") {
+		c.Inc("cases_with_defer", 1)
+	}
+	for _, o := range s.Plan {
+		k := o.K
+		if o.Ty == "Rogue" {
+			k = "rogue_type"
+		} else if o.K == "err" && o.V == "sentinel" {
+			k = "err_shared_sentinel"
+		}
+		c.Inc("planned_outcomes_"+k, 1)
+	}
+	for key, h := range s.DirPlan {
+		site := "schema_directive"
+		switch {
+		case strings.HasSuffix(key, "@#f"):
+			site = "field_interceptor"
+		case strings.HasSuffix(key, "@#r"):
+			site = "root_field_interceptor"
+		case strings.Contains(key, "@q"):
+			site = "operation_directive"
+		}
+		c.Inc("planned_"+site+"_"+h, 1)
+	}
+	if s.Result != nil {
+		c.Inc("resolver_events_validated", int64(len(s.Result.Events)))
+		c.Inc("payloads_validated", int64(len(s.Result.Resps)))
+	}
 }
